@@ -23,6 +23,7 @@ import (
 
 // Ev is one subscriber call.
 type Ev struct {
+	Seq  int64
 	Code datatransfer.EventCode
 	Chid datatransfer.ChannelID
 	Vec  views.Vec
@@ -73,7 +74,7 @@ func NewNode(o Opts) (*Node, error) {
 	n.unsub = m.SubscribeToEvents(func(e datatransfer.Event, st datatransfer.ChannelState) {
 		v := views.Of(st)
 		n.mu.Lock()
-		n.Events = append(n.Events, Ev{e.Code, st.ChannelID(), v, st})
+		n.Events = append(n.Events, Ev{doubles.NextSeq(), e.Code, st.ChannelID(), v, st})
 		n.mu.Unlock()
 	})
 	m.OnReady(func(err error) {
@@ -197,22 +198,32 @@ func (n *Node) StoreDigest() map[string]string {
 
 // ---------------------------------------------------------------- incoming traffic
 
-// RecvRequest delivers a request message as if sent by `from` over libp2p.
+// RecvRequest delivers a request message as if sent by `from` over libp2p and runs to quiescence.
 func (n *Node) RecvRequest(from peer.ID, rq datatransfer.Request) {
+	n.RecvRequestNoWait(from, rq)
+	mc.Wait()
+}
+
+// RecvResponse delivers a response message as if sent by `from` over libp2p and runs to quiescence.
+func (n *Node) RecvResponse(from peer.ID, rs datatransfer.Response) {
+	n.RecvResponseNoWait(from, rs)
+	mc.Wait()
+}
+
+// RecvRequestNoWait delivers without waiting for quiescence (for use inside mc.Call).
+func (n *Node) RecvRequestNoWait(from peer.ID, rq datatransfer.Request) {
 	m := doubles.Recode(rq).(datatransfer.Request)
 	if m.IsRestartExistingChannelRequest() {
 		n.Net.Receiver.ReceiveRestartExistingChannelRequest(context.Background(), from, m)
 	} else {
 		n.Net.Receiver.ReceiveRequest(context.Background(), from, m)
 	}
-	mc.Wait()
 }
 
-// RecvResponse delivers a response message as if sent by `from` over libp2p.
-func (n *Node) RecvResponse(from peer.ID, rs datatransfer.Response) {
+// RecvResponseNoWait delivers without waiting for quiescence.
+func (n *Node) RecvResponseNoWait(from peer.ID, rs datatransfer.Response) {
 	m := doubles.Recode(rs).(datatransfer.Response)
 	n.Net.Receiver.ReceiveResponse(context.Background(), from, m)
-	mc.Wait()
 }
 
 // NewReq builds a new/restart request.
